@@ -34,7 +34,7 @@ input == <<lines, expect, sig, wrap>>     \* wrap: shape of the parent's return 
 OptNames == {"ignore_init_summary"}     \* trim_doctest_flags, warn_unknown_params decide no branch: varied by the harness
 \* tuplefn: function returning tuple[int, str]; genfn: function returning Generator[tuple[..], tuple[..], tuple[..]]
 \* aliasmod: a module in which every documented name is imported from a package that is not loaded (unresolvable alias)
-Parents == {"none", "module", "class", "function", "init", "property", "tuplefn", "genfn", "aliasmod"}
+Parents == {"none", "module", "class", "function", "init", "property", "tuplefn", "genfn", "aliasmod", "tupleprop", "tuple0fn", "gen1fn", "gen2fn", "iterfn"}
 
 ParamKinds == {"parameters", "other_parameters"}
 RetKinds == {"returns", "yields", "receives"}
@@ -222,11 +222,12 @@ ItemLists(K) == LET S == {it \in ItemSpecs(K) : ItemOK(K, it)} IN
                 {<<a>> : a \in S} \cup (CASE Variety = "full" -> {<<a, b>> : a \in S, b \in S} [] Variety = "thin" -> {<<a, a>> : a \in S} [] OTHER -> {})
 StructKinds == ParamKinds \cup RetKinds \cup AnnKinds \cup SigKinds \cup {"attributes"}
 SectionSpecs ==
-  UNION {{[kind |-> K, items |-> il, shape |-> "one"] : il \in ItemLists(K)} : K \in StructKinds}
-  \cup {[kind |-> "examples", items |-> <<>>, shape |-> sh] : sh \in (IF Variety = "mini" THEN {"one"} ELSE {"one", "two"})}
-  \cup {[kind |-> "admonition", items |-> <<>>, shape |-> sh] : sh \in (IF Variety = "mini" THEN {"blank"} ELSE Shapes)}
+  \* gap: the items of the section are separated by a blank line (valid numpydoc layout)
+  UNION {{[kind |-> K, items |-> il, shape |-> "one", gap |-> g] : il \in ItemLists(K), g \in (IF Variety = "mini" THEN {FALSE} ELSE BOOLEAN)} : K \in StructKinds}
+  \cup {[kind |-> "examples", items |-> <<>>, shape |-> sh, gap |-> FALSE] : sh \in (IF Variety = "mini" THEN {"one"} ELSE {"one", "two"})}
+  \cup {[kind |-> "admonition", items |-> <<>>, shape |-> sh, gap |-> FALSE] : sh \in (IF Variety = "mini" THEN {"blank"} ELSE Shapes)}
 Structs == UNION {[1..n -> SectionSpecs] : n \in 1..MaxSecs}
-SecOK(s) == (s.kind \in RetKinds /\ Len(s.items) = 2) => (s.items[1].sann = s.items[2].sann \/ s.items[1].typed \/ s.items[2].typed)
+SecOK(s) == (s.gap => Len(s.items) = 2) /\ (s.kind \in RetKinds /\ Len(s.items) = 2) => (s.items[1].sann = s.items[2].sann \/ s.items[1].typed \/ s.items[2].typed)
 \* one documented object must be able to supply everything the structure takes from it (see DocGoogle.tla)
 RetSann(s) == s.kind \in RetKinds /\ \E j \in 1..Len(s.items) : s.items[j].sann
 AttrSann(s) == s.kind = "attributes" /\ \E j \in 1..Len(s.items) : s.items[j].sann
@@ -255,8 +256,8 @@ ExpDef(K, it) == IF K \in ParamKinds THEN (IF it.dflt THEN "doc" ELSE IF it.sdef
 \* what a faithful parser returns: the description as written, without the blank line that separates sections
 ExpStrip(K) == IF K \in ParamKinds THEN "r" ELSE IF K \in SigKinds THEN "s" ELSE "r"
 
-RECURSIVE RenderItems(_, _, _, _)
-RenderItems(K, items, base, acc) ==
+RECURSIVE RenderItems(_, _, _, _, _)
+RenderItems(K, items, base, acc, gap) ==
   IF items = <<>> THEN acc
   ELSE LET it == Head(items)
            dl == DescLines(it.shape)
@@ -264,7 +265,9 @@ RenderItems(K, items, base, acc) ==
            sg == <<[ann |-> it.sann /\ ~it.typed, def |-> it.sdef /\ ~it.dflt]>> \o [j \in 1..Len(dl) |-> NoSig]
            el == [first |-> base, body |-> SeqFromTo(base + 1, base + Len(dl)), cnt |-> 1,
                   name |-> ExpName(K, it), ann |-> ExpAnn(K, it), dflt |-> ExpDef(K, it), strip |-> ExpStrip(K)]
-       IN RenderItems(K, Tail(items), base + Len(ls), [lines |-> acc.lines \o ls, sig |-> acc.sig \o sg, els |-> Append(acc.els, el)])
+           sep == IF gap /\ Tail(items) # <<>> THEN <<Blank>> ELSE <<>>        \* the blank line belongs to no item
+       IN RenderItems(K, Tail(items), base + Len(ls) + Len(sep),
+                      [lines |-> acc.lines \o ls \o sep, sig |-> acc.sig \o sg \o [j \in 1..Len(sep) |-> NoSig], els |-> Append(acc.els, el)], gap)
 
 RenderSection(s, base) ==
   LET K == s.kind IN
@@ -282,7 +285,7 @@ RenderSection(s, base) ==
                        ELSE <<[kind |-> "examples", tl |-> <<b + 1, b + 2>>], [kind |-> "text", tl |-> <<b + 4>>], [kind |-> "examples", tl |-> <<b + 6>>]>>
          IN [lines |-> ls, sig |-> [j \in 1..Len(ls) |-> NoSig], exp |-> SecRec("examples", base, SeqFromTo(b + 1, b + Len(body)), <<>>, subs)]
     [] OTHER ->
-         LET r == RenderItems(K, s.items, base + 2, [lines |-> <<>>, sig |-> <<>>, els |-> <<>>])
+         LET r == RenderItems(K, s.items, base + 2, [lines |-> <<>>, sig |-> <<>>, els |-> <<>>], s.gap)
          IN [lines |-> <<Hdr(K), Dash(0)>> \o r.lines, sig |-> <<NoSig, NoSig>> \o r.sig, exp |-> SecRec(K, base, <<>>, r.els, <<>>)]
 RECURSIVE RenderAll(_, _)
 RenderAll(st, acc) ==
